@@ -53,6 +53,8 @@ type Case struct {
 	SameCtx bool `json:"same_ctx,omitempty"`
 	// IDKind: which branch ids the two branches carry: 0 = 7000+b, 1 = b (0 and 1), 2 = negative, 3 = close to MaxInt64
 	IDKind int `json:"id_kind,omitempty"`
+	// XidKind: 0 ordinary ip:port:id, 1 IPv6 zone literal (contains '%'), 2 long DNS name, 3 a text that looks like a format verb
+	XidKind int `json:"xid_kind,omitempty"`
 }
 
 type model struct {
@@ -114,7 +116,10 @@ func column(p string) string {
 	return "cancelled"
 }
 
-const xid = "10.0.0.9:8091:4711"
+// xid of the case: ordinary, or an IPv6 zone literal (contains '%'), or a long DNS name
+var xid = "10.0.0.9:8091:4711"
+
+var xidKinds = []string{"10.0.0.9:8091:4711", "[fe80::1%eth0]:8091:2612349", "seata-server-0.seata-server.middleware.svc.cluster.local:8091:9007199254740993", "100%d:8091:7"}
 
 var idKind int
 
@@ -218,6 +223,7 @@ func runCase(c Case) *pt.Failure {
 		}
 		models := []model{{}, {}}
 		idKind = c.IDKind
+		xid = xidKinds[c.XidKind%len(xidKinds)]
 		sharedCtx = map[int]context.Context{}
 		var hist []string
 		last.interesting = false
@@ -468,12 +474,13 @@ func prop(mode string) func(rt *rapid.T) {
 		}
 		c.SameCtx = rapid.IntRange(0, 3).Draw(rt, "sameCtx") == 0
 		c.IDKind = rapid.SampledFrom([]int{0, 0, 0, 1, 2, 3}).Draw(rt, "idKind")
+		c.XidKind = rapid.SampledFrom([]int{0, 0, 0, 1, 2, 3}).Draw(rt, "xidKind")
 		fl := runCase(c)
 		var sh []string
 		for _, st := range c.Steps {
 			sh = append(sh, fmt.Sprintf("%s%d%s%s%v", st.Phase[:1], st.Branch, faultTag(st), raceTag(st), st.BizFail))
 		}
-		sh = append(sh, fmt.Sprint(c.SameCtx, c.IDKind))
+		sh = append(sh, fmt.Sprint(c.SameCtx, c.IDKind, c.XidKind))
 		ctx.Rec.Case(mode, last.interesting, mode+"|"+strings.Join(sh, ","), c, "mode:"+mode)
 		ctx.Judge(rt, mode, fl, c)
 	}
